@@ -43,6 +43,15 @@ def gated (s : St) (cls msg : String) : St :=
 
 def fail (s : St) (msg : String) : St := { s with fails := msg :: s.fails }
 
+/-- `p` lies on some segment of the polyline -/
+def onRoute (r : List P2) (p : P2) : Bool := (segments r).any (fun (a, b) => pointOnSegment a b p)
+
+/-- where a checkpoint sits on route(): on a there-and-back spur that Polygon::simplify() cuts
+    ("spur"), at a bend of the simplified route ("corner"), or strictly inside a straight segment
+    ("mid") -/
+def cpPlace (sr : List P2) (cp : P2) : String :=
+  if !onRoute sr cp then "spur" else if sr.any (· == cp) then "corner" else "mid"
+
 /-- insertion sort by key -/
 def insertBy (k : α → Rat) (a : α) : List α → List α
   | [] => [a]
@@ -126,10 +135,25 @@ def checkCase (strict : List String) (c : Case) : CaseResult := Id.run do
       else if !checkpointsInOrder dr cps then
         let msg := s!"connector {id}: checkpoint {cps.map showP} on route() but no longer on displayRoute() {dr.map showP}"
         if finalNudge then s := gated s "opt-final-nudge" msg
-        -- class cp-disp (also seen by C11): a there-and-back spur to the checkpoint is cut by
-        -- Polygon::simplify(), or nudging shifts a segment that starts at a checkpoint corner
-        else if !checkpointsInOrder (simplify r) cps then s := gated s "cp-disp" (msg ++ " (cut by simplify())")
-        else s := gated s "cp-disp" (msg ++ " (simplify(route()) still visits it: moved by nudging)")
+        else
+          -- fingerprint by where the lost checkpoint sits on route():
+          --  [cp-disp]     known: on a there-and-back spur cut by Polygon::simplify(), or at a bend
+          --                (nudging shifts a segment that starts at the checkpoint corner);
+          --  [cp-disp-mid] strictly inside a straight segment of route(): nudging moved a neighbouring
+          --                segment past the checkpoint (buildOrthogonalNudgingSegments limits exist to
+          --                prevent exactly this) -- strict;
+          --  [cp-disp-unify] mid-segment loss when another connector of the case has no checkpoint
+          --                and the unifying pre-pass is on (seen on the unchanged tree, see report)
+          let sr := simplify r
+          let lost := cps.filter (fun cp => !onRoute dr cp)
+          let places := lost.map (cpPlace sr)
+          let msg' := msg ++ s!" (lost: {lost.map showP} sitting {places})"
+          if places.any (· == "mid") then
+            let someWithout := routes.any (fun (j, _) => (lookup cpss j).isNone)
+            let unifying := (opts / 4) % 2 == 1
+            if someWithout && unifying then s := gated s "cp-disp-unify" msg'
+            else s := fail s ("[cp-disp-mid] " ++ msg')
+          else s := gated s "cp-disp" msg'
     | none => pure ()
   -- pairs
   let mut sharedBefore := 0
